@@ -1214,8 +1214,163 @@ def convpipe_family(tier, seed):
                   "trace": traceback.format_exc()[-600:]})
 
 
+def layoutpipe_family(tier, seed):
+    """whole model loader/dumper compilation pipeline (name_mapping facade -> overlays -> structure maker -> crown builder
+    -> code generation) on enumerated name_mapping configurations over one dataclass model; the emitted sources are
+    collected by CodeGenAccumulator.  No loader or dumper is called."""
+    import dataclasses
+    import random
+
+    from adaptix import DebugTrail, ExtraForbid, ExtraSkip, NameStyle, P, Retort, name_mapping
+    from adaptix._internal.morphing.model.basic_gen import CodeGenAccumulator
+
+    rnd = random.Random(seed + 7)
+    FIELDS = [("a", None), ("b_", None), ("c_d", 1), ("e__", 2), ("long_name_x", None), ("_p", 0), ("rest", "dict")]
+
+    def make_model(with_rest):
+        fl = []
+        req = [(n, int) for n, d in FIELDS if d is None]
+        opt = [(n, int, dataclasses.field(default=d)) for n, d in FIELDS if d is not None and d != "dict"]
+        fl = req + opt
+        if with_rest:
+            fl.append(("rest", dict, dataclasses.field(default_factory=dict)))
+        return dataclasses.make_dataclass("M", fl)
+
+    STYLES = {"camel": NameStyle.CAMEL, "pascal": NameStyle.PASCAL, "upper_snake": NameStyle.UPPER_SNAKE,
+              "lower_kebab": NameStyle.LOWER_KEBAB, "lower": NameStyle.LOWER, None: None}
+    names = [n for n, _ in FIELDS if n != "rest"]
+
+    def gen_map():
+        kind = rnd.choice(["dict", "list"])
+
+        def val():
+            c = rnd.random()
+            if c < 0.35:
+                return rnd.choice(["k1", "k2", "a", "zz", "b"])
+            if c < 0.5:
+                return ["outer", rnd.choice(["in1", "in2", "..."])]
+            if c < 0.6:
+                return ["..."]
+            if c < 0.7:
+                return ["n", "m", "..."]
+            if c < 0.78:
+                return None
+            if c < 0.9:
+                return ["lst", rnd.randint(0, 3)]
+            return "..."
+        def dct():
+            return {"t": "dict", "m": {n: val() for n in rnd.sample(names, rnd.randint(1, 3))}}
+        if kind == "dict":
+            return [dct()]
+        out = []
+        for _ in range(rnd.randint(1, 3)):
+            if rnd.random() < 0.6:
+                out.append(dct())
+            else:
+                out.append({"t": "pair", "pred": rnd.choice(names + ["(a|b_)", "c_.*"]), "v": val()})
+        return out
+
+    def gen_nm():
+        nm = {}
+        if rnd.random() < 0.5:
+            nm["map"] = gen_map()
+        if rnd.random() < 0.35:
+            nm["name_style"] = rnd.choice(["camel", "pascal", "upper_snake", "lower_kebab"])
+        if rnd.random() < 0.25:
+            nm["trim_trailing_underscore"] = rnd.choice([True, False])
+        if rnd.random() < 0.3:
+            nm["skip"] = rnd.sample(names, rnd.randint(1, 2))
+        if rnd.random() < 0.2:
+            nm["only"] = rnd.sample(names, rnd.randint(3, 5))
+        if rnd.random() < 0.2:
+            nm["as_list"] = True
+        if rnd.random() < 0.3:
+            nm["omit_default"] = rnd.choice([True, ["c_d"], ["e__", "a"]])
+        if rnd.random() < 0.3:
+            nm["extra_in"] = rnd.choice(["forbid", "skip", "rest"])
+        if rnd.random() < 0.2:
+            nm["extra_out"] = rnd.choice(["skip", "rest"])
+        return nm
+
+    def build_map(m):
+        out = []
+        for el in m:
+            def conv(v):
+                if v == "...":
+                    return ...
+                if isinstance(v, list):
+                    return tuple(... if x == "..." else x for x in v)
+                return v
+            if el["t"] == "dict":
+                out.append({k: conv(v) for k, v in el["m"].items()})
+            else:
+                out.append((el["pred"], conv(el["v"])))
+        return out if len(out) != 1 or not isinstance(out[0], dict) or rnd.random() < 0.5 else out[0]
+
+    def build_nm(nm, M):
+        kw = {}
+        if "map" in nm:
+            kw["map"] = build_map(nm["map"])
+        if "name_style" in nm:
+            kw["name_style"] = STYLES[nm["name_style"]]
+        for k in ("trim_trailing_underscore", "as_list"):
+            if k in nm:
+                kw[k] = nm[k]
+        for k in ("skip", "only"):
+            if k in nm:
+                kw[k] = list(nm[k])
+        if "omit_default" in nm:
+            kw["omit_default"] = nm["omit_default"] if isinstance(nm["omit_default"], bool) else list(nm["omit_default"])
+        if "extra_in" in nm:
+            kw["extra_in"] = {"forbid": ExtraForbid(), "skip": ExtraSkip(), "rest": "rest"}[nm["extra_in"]]
+        if "extra_out" in nm:
+            kw["extra_out"] = {"skip": ExtraSkip(), "rest": "rest"}[nm["extra_out"]]
+        return name_mapping(M, **kw)
+
+    fixed = [
+        {"nms": [{}]},
+        {"nms": [{"map": [{"t": "dict", "m": {"a": "x1"}}, {"t": "dict", "m": {"a": "x2", "c_d": "y"}}]}]},
+        {"nms": [{"map": [{"t": "dict", "m": {"a": "x1"}}]}, {"map": [{"t": "dict", "m": {"a": "x2", "b_": "q"}}], "name_style": "camel"}]},
+        {"nms": [{"as_list": True, "skip": ["c_d"]}]},
+        {"nms": [{"as_list": True, "skip": ["c_d", "e__", "_p"], "map": [{"t": "dict", "m": {"long_name_x": ["k", "..."]}}]}]},
+        {"nms": [{"name_style": "camel", "trim_trailing_underscore": False}]},
+        {"nms": [{"skip": ["c_d"], "only": ["a", "b_", "c_d", "long_name_x"]}]},
+        {"nms": [{"omit_default": True}]},
+        {"nms": [{"extra_in": "rest", "extra_out": "rest"}]},
+        {"nms": [{"extra_in": "forbid", "map": [{"t": "dict", "m": {"a": ["n", "a"], "b_": ["n", "b"]}}]}]},
+    ]
+    n_rand = 120 if tier == "quick" else 1200
+    cfgs = fixed + [{"nms": [gen_nm() for _ in range(rnd.choice([1, 1, 2]))]} for _ in range(n_rand)]
+    for idx, cfg in enumerate(cfgs):
+        try:
+            with_rest = any(nm.get("extra_in") == "rest" or nm.get("extra_out") == "rest" for nm in cfg["nms"])
+            cfg["with_rest"] = with_rest
+            M = make_model(with_rest)
+            acc = CodeGenAccumulator()
+            mode = [DebugTrail.DISABLE, DebugTrail.FIRST, DebugTrail.ALL][idx % 3]
+            cfg["debug_trail"] = mode.name
+            retort = Retort(recipe=[*[build_nm(nm, M) for nm in cfg["nms"]], acc], debug_trail=mode)
+            out = {}
+            for what in ("loader", "dumper"):
+                before = len(acc.list)
+                try:
+                    getattr(retort, "get_" + what)(M)
+                    err = None
+                except Exception as e:
+                    err = type(e).__name__
+                progs = [d.source for r, d in acc.list[before:] if getattr(r.last_loc.type, "__name__", "") == "M"]
+                out[what] = {"error": err, "sources": progs}
+            emit({"kind": "layoutpipe", "idx": idx, "cfg": cfg, "loader": out["loader"], "dumper": out["dumper"],
+                  "fields": [[f.name, f.default is dataclasses.MISSING and f.default_factory is dataclasses.MISSING]
+                             for f in dataclasses.fields(M)]})
+        except Exception as e:
+            emit({"kind": "layoutpipe", "idx": idx, "cfg": cfg, "harness_error": f"{type(e).__name__}: {e}",
+                  "trace": traceback.format_exc()[-600:]})
+
+
 FAMILIES = {"loader": loader_family, "dumper": dumper_family, "literal": literal_family, "hostile": hostile_family,
-            "broach": broach_family, "converter": converter_family, "convpipe": convpipe_family}
+            "broach": broach_family, "converter": converter_family, "convpipe": convpipe_family,
+            "layoutpipe": layoutpipe_family}
 
 
 def main():
